@@ -37,6 +37,29 @@ NEEDS = {
     "C17-B": "runs that exit at call depth >= 1 (Abort, error, timeout inside a function), the VM reused WITHOUT clear, enough repetitions (or a small call stack)",
     "C18-A": "re-entry plus an erroring callee that fails inside a second host function",
     "C18-B": "a host function calling (run_function) a closure that actually captures a variable",
+    # second round (ids C / D)
+    "C02-C": "two open upvalues adjacent in the list, both garbage at the moment of a collection, then anything that walks the list",
+    "C02-D": "two collections, the first of which finds no garbage at all, with objects stored into older containers in between",
+    "C03-C": "a native that re-enters the script, invoked as a native function value through a dynamic call (same idea as C03-A, written independently)",
+    "C03-D": "exactly the budget u64::MAX",
+    "C04-C": "a reference cycle through two or more tables, one of them hashed (used as a key) (same idea as C04-A)",
+    "C04-D": "a table holding a key that no lookup finds again (NaN, or a table key mutated after the insert) and any consumer of its iterator: comparison, to_array / min / max / sorted, the collector's mark phase",
+    "C05-C": "a string with multi-byte characters that is collected or cleared, then a further allocation",
+    "C05-D": "more than 1024 garbage objects at one collection",
+    "C07-C": "a removal from the last bucket while the cluster continues at bucket 0 (same idea as C12-A)",
+    "C07-D": "an allocation failure exactly at the growth of the hash part for a new key, the table used afterwards (same idea as C07-B)",
+    "C09-C": "ties and more than 32 rows (same idea as C09-A)",
+    "C09-D": "a key function returning fresh objects, a better key found after the first row, a collection during a later callback (close to C09-B)",
+    "C12-C": "keys A and Y sharing a home bucket, X at home in the next one, inserted A, X, Y, then remove(A)",
+    "C12-D": "keys with drop glue, values without, and an insert of a key that is already present",
+    "C13-C": "a run [a][c][d] where c sits in its own home slot, d has its home at or before a's slot, a removed, d looked up",
+    "C13-D": "the length at clone time a power of two >= 4 and an absent-handle operation on the clone before any insert",
+    "C15-C": "a reused VM, an earlier run that ended inside a called function, then a later failing run (stale frames in its trace)",
+    "C15-D": "a failure exactly in a ForEach card's own bookkeeping: stack filling up while a loop variable is bound, budget expiring there, or a bad i/k/v name",
+    "C17-C": "a comparison / sort of two distinct equal-length strings whose result is observed, on a VM whose heap was used before",
+    "C17-D": "an earlier run that stops while slot 0 is occupied, clear, then a program that pops the empty stack before pushing anything",
+    "C18-C": "a host function re-entering a script function when the call stack has 0 or 1 free slots, a callee of arity >= 1, a host that carries on after the error",
+    "C18-D": "a function, closure or native function value passed to a bool parameter of a host function",
 }
 
 confirm = {}
@@ -82,6 +105,7 @@ for cid in sorted(os.listdir(cand_dir)):
             "existing_suite_tests_passed_with_change": c["suite_tests_passed"],
             "demo_exit_with_change": c["demo_with_patch"],
         },
+        "evaluated_with_verif_commit": subprocess.run(["git", "-C", ROOT, "rev-parse", "--short", "HEAD"], capture_output=True, text=True).stdout.strip(),
         "checks_run": "tools/seeded_eval.sh: git -C /repo apply patch.diff; every registered quick check (VERIF_SEED=1); git -C /repo checkout -- .",
         "detected_by": caught_by,
         "own_property_check_detects": prop in caught_by,
@@ -91,8 +115,15 @@ for cid in sorted(os.listdir(cand_dir)):
     json.dump(meta, open(os.path.join(dst, "meta.json"), "w"), indent=1)
     rows.append((cid, prop, caught_by, prop in caught_by))
 
+# the matrix covers everything installed so far (all rounds)
+rows = []
+for cid in sorted(os.listdir(os.path.join(ROOT, "seeded"))):
+    mp = os.path.join(ROOT, "seeded", cid, "meta.json")
+    if os.path.exists(mp):
+        m = json.load(open(mp))
+        rows.append((cid, m["breaks_property"], m["detected_by"], m["own_property_check_detects"], m.get("evaluated_with_verif_commit", "")))
 with open(os.path.join(ROOT, "seeded", "MATRIX.md"), "w") as f:
-    f.write("| seeded change | breaks | caught by its own property's check | all quick checks that report a violation |\n|---|---|---|---|\n")
-    for cid, prop, caught, own in rows:
-        f.write(f"| {cid} | {prop} | {'yes' if own else 'NO'} | {', '.join(caught) if caught else '-'} |\n")
+    f.write("| seeded change | breaks | caught by its own property's check | all quick checks that report a violation | /verif commit of the evaluation |\n|---|---|---|---|---|\n")
+    for cid, prop, caught, own, at in rows:
+        f.write(f"| {cid} | {prop} | {'yes' if own else 'NO'} | {', '.join(caught) if caught else '-'} | {at} |\n")
 print(open(os.path.join(ROOT, "seeded", "MATRIX.md")).read())
